@@ -263,6 +263,8 @@ pub async fn project_defs(world: &World, scn: &Scn, pname: &str) -> Value {
                 r.push(json!({"u": scn.names.key(&k), "d": abs_date(u["mdate"].as_i64().unwrap_or(0)), "en": u["enabled"].as_bool().unwrap_or(false)}));
             }
         }
+        // canonical order: the value of a definition does not depend on the order in which the rows are returned
+        r.sort_by_key(|x| (x["d"].as_i64().unwrap_or(0), x["u"].as_str().unwrap_or("").to_string(), x["en"].as_bool().unwrap_or(false)));
         r
     };
     if let Some(rooms) = v["sys.Room"].as_array() {
@@ -285,9 +287,11 @@ pub async fn project_defs(world: &World, scn: &Scn, pname: &str) -> Value {
                                 "d": abs_date(x["mdate"].as_i64().unwrap_or(0)), "self": x["mutate_self"].as_bool().unwrap_or(false), "all": x["mutate_all"].as_bool().unwrap_or(false)}));
                         }
                     }
+                    rights.sort_by_key(|r| (r["d"].as_i64().unwrap_or(0), r["ent"].as_str().unwrap_or("").to_string()));
                     groups.push(json!({"g": a["name"].as_str().unwrap_or(""), "rights": rights, "users": users(&a["users"]), "uadmins": users(&a["user_admin"])}));
                 }
             }
+            groups.sort_by_key(|g| g["g"].as_str().unwrap_or("").to_string());
             out.insert(name, json!({"admins": users(&r["admin"]), "groups": groups}));
         }
     }
@@ -346,6 +350,303 @@ pub async fn drain_events(world: &mut World, scn: &Scn) -> Value {
         m.insert(pn, json!(evs));
     }
     Value::Object(m)
+}
+
+pub async fn offer(world: &World, scn: &Scn, from: &str, to: &str, room_name: &str) -> Result<Value, String> {
+    use vh::database::edge::{Edge, EdgeDeletionEntry};
+    use vh::database::node::{Node, NodeDeletionEntry, NodeIdentifier};
+    let room = scn.names.rooms.get(room_name).cloned().ok_or("unknown room")?;
+    let src = &world.peers[from];
+    let dst = &world.peers[to];
+    let mut sigfail = Vec::new();
+    // 1. the room definition
+    if let Some(rn) = src.db.get_room_node(room).await.map_err(|e| e.to_string())? {
+        // as on the wire: the local row identifiers of the sender are not transmitted
+        let bytes = vh::bincode::serialize(&rn).map_err(|e| e.to_string())?;
+        let rn: vh::database::room_node::RoomNode = vh::bincode::deserialize(&bytes).map_err(|e| e.to_string())?;
+        match dst.services.signature_verification.verify_room_node(rn).await {
+            Ok(rn) => {
+                if let Err(e) = dst.db.add_room_node(rn).await {
+                    return Err(format!("room definition refused: {e}"));
+                }
+            }
+            Err(e) => return Err(format!("room definition signature: {e}")),
+        }
+    } else {
+        return Err("room unknown on the offering instance".to_string());
+    }
+    let st = read_store(src, world.app_shorts(), vec![room], vec![]).await;
+    // 2. deletion records (references first, as the synchronisation does)
+    let etombs: Vec<EdgeDeletionEntry> = st.etombs.iter().filter(|t| t.room == room).map(|t| EdgeDeletionEntry {
+        room_id: t.room, src: t.src, src_entity: t.src_entity.clone(), dest: t.dest, label: t.label.clone(), cdate: t.cdate,
+        deletion_date: t.ddate, verifying_key: t.vkey.clone(), signature: t.sig.clone(), entity_name: None }).collect();
+    if !etombs.is_empty() {
+        match dst.services.signature_verification.verify_edge_log(etombs).await {
+            Ok(v) => dst.db.delete_edges(v).await.map_err(|e| e.to_string())?,
+            Err(e) => sigfail.push(format!("etombs {e}")),
+        }
+    }
+    let ntombs: Vec<NodeDeletionEntry> = st.ntombs.iter().filter(|t| t.room == room).map(|t| NodeDeletionEntry {
+        room_id: t.room, id: t.id, entity: t.entity.clone(), mdate: t.mdate, deletion_date: t.ddate,
+        verifying_key: t.vkey.clone(), signature: t.sig.clone(), entity_name: None }).collect();
+    if !ntombs.is_empty() {
+        match dst.services.signature_verification.verify_node_log(ntombs).await {
+            Ok(v) => dst.db.delete_nodes(v).await.map_err(|e| e.to_string())?,
+            Err(e) => sigfail.push(format!("ntombs {e}")),
+        }
+    }
+    // 3. rows
+    let ids: Vec<Uid> = st.nodes.iter().filter(|n| n.room == Some(room)).map(|n| n.id).collect();
+    let mut rejected_nodes = Vec::new();
+    let mut rejected_edges = Vec::new();
+    if !ids.is_empty() {
+        let mut set = HashSet::new();
+        for n in st.nodes.iter().filter(|n| n.room == Some(room)) {
+            set.insert(NodeIdentifier { id: n.id, mdate: n.mdate, signature: n.sig.clone() });
+        }
+        let filtered = dst.db.filter_existing_node(room, set).await.map_err(|e| e.to_string())?;
+        let mut wanted: HashMap<Uid, vh::database::node::NodeToInsert> = HashMap::new();
+        for f in filtered {
+            wanted.insert(f.id, f);
+        }
+        let want_ids: Vec<Uid> = wanted.keys().cloned().collect();
+        let mut nodes: Vec<Node> = Vec::new();
+        let mut rcv = src.db.get_nodes(room, want_ids.clone()).await;
+        while let Some(r) = rcv.recv().await {
+            nodes.extend(r.map_err(|e| e.to_string())?);
+        }
+        match dst.services.signature_verification.verify_nodes(nodes).await {
+            Ok(nodes) => {
+                let mut ntis = Vec::new();
+                for mut n in nodes {
+                    if let Some(mut nti) = wanted.remove(&n.id) {
+                        n._local_id = nti.old_local_id;
+                        nti.node = Some(n);
+                        ntis.push(nti);
+                    }
+                }
+                let rej = dst.db.add_nodes(room, ntis).await.map_err(|e| e.to_string())?;
+                for r in rej {
+                    rejected_nodes.push(scn.names.row(&r));
+                }
+            }
+            Err(e) => sigfail.push(format!("nodes {e}")),
+        }
+        // 4. references of every row of the room
+        let mut edges: Vec<Edge> = Vec::new();
+        let mut rcv = src.db.get_edges(room, ids.iter().map(|i| (*i, 0)).collect()).await;
+        while let Some(r) = rcv.recv().await {
+            edges.extend(r.map_err(|e| e.to_string())?);
+        }
+        if !edges.is_empty() {
+            match dst.services.signature_verification.verify_edges(edges).await {
+                Ok(edges) => {
+                    let rej = dst.db.add_edges(room, edges).await.map_err(|e| e.to_string())?;
+                    for r in rej {
+                        rejected_edges.push(scn.names.row(&r));
+                    }
+                }
+                Err(e) => sigfail.push(format!("edges {e}")),
+            }
+        }
+    }
+    dst.recompute().await;
+    rejected_nodes.sort();
+    rejected_edges.sort();
+    Ok(json!({"rejected_nodes": rejected_nodes, "rejected_edges": rejected_edges, "sigfail": sigfail}))
+}
+
+pub fn signing_key_of(user: &str) -> vh::security::Ed25519SigningKey {
+    let km = key_material_for(user);
+    let sk = vh::security::derive_key(&format!("{} SIGNING_KEY", APP_KEY), &km);
+    vh::security::Ed25519SigningKey::create_from(&sk)
+}
+
+fn flip(sig: &mut Vec<u8>) {
+    if let Some(b) = sig.get_mut(5) {
+        *b ^= 0x40;
+    }
+}
+
+pub async fn inject(world: &World, scn: &mut Scn, step: &Value) -> Result<Value, String> {
+    use vh::database::edge::{Edge, EdgeDeletionEntry};
+    use vh::database::node::{Node, NodeDeletionEntry, NodeIdentifier};
+    let dst = &world.peers[&s(step, "to")];
+    let sync_room = scn.names.rooms.get(&s(step, "room")).cloned().ok_or("unknown room")?;
+    let short_of = |ent: &str| -> String { world.short.get(&format!("v.{ent}")).cloned().unwrap_or_default() };
+    // the storage name of the text field, taken from the persisted model
+    let dm: Value = serde_json::from_str(&dst.db.datamodel().await.map_err(|e| e.to_string())?).map_err(|e| e.to_string())?;
+    let field_short = find_field_short(&dm, "name").ok_or("no field short name")?;
+    let mut nodes: Vec<Node> = Vec::new();
+    let mut edges: Vec<Edge> = Vec::new();
+    let mut ntombs: Vec<NodeDeletionEntry> = Vec::new();
+    let mut etombs: Vec<EdgeDeletionEntry> = Vec::new();
+    // the stored rows of the target, to build replacements and deletions of existing rows
+    let st = read_store(dst, world.app_shorts(), scn.names.rooms.values().cloned().collect(), scn.names.rows.values().cloned().collect()).await;
+    for it in arr(step, "items") {
+        let kind = s(it, "kind");
+        let key = signing_key_of(&s(it, "author"));
+        let date = ts(i(it, "d") / 1000, i(it, "d") % 1000);
+        let tamper = it.get("tamper").and_then(|t| t.as_str()).unwrap_or("none").to_string();
+        match kind.as_str() {
+            "node" => {
+                let row = s(it, "row");
+                let id = match scn.names.rows.get(&row) {
+                    Some(i) => *i,
+                    None => {
+                        let i = vh::security::new_uid();
+                        scn.names.add_row(&row, i);
+                        i
+                    }
+                };
+                let existing = st.nodes.iter().find(|n| n.id == id);
+                let room = scn.names.rooms.get(&s(it, "stated")).cloned().ok_or("unknown stated room")?;
+                let ent = if tamper == "entity" { "zz".to_string() } else { short_of(&s(it, "ent")) };
+                let json = if tamper == "model" { format!("{{\"{}\":12}}", field_short) } else { format!("{{\"{}\":\"{}\"}}", field_short, s(it, "text")) };
+                let mut n = Node { id, room_id: Some(room), cdate: existing.map(|e| e.cdate).unwrap_or(date), mdate: date, _entity: ent,
+                    _json: Some(json), _binary: None, verifying_key: vec![], _signature: vec![], _local_id: None };
+                n.sign(&key).map_err(|e| e.to_string())?;
+                if tamper == "field" {
+                    n._json = Some(format!("{{\"{}\":\"tampered\"}}", field_short));
+                }
+                if tamper == "sig" {
+                    flip(&mut n._signature);
+                }
+                if tamper == "big" {
+                    n._json = Some(format!("{{\"{}\":\"{}\"}}", field_short, "x".repeat(300 * 1024)));
+                    n.sign(&key).map_err(|e| e.to_string())?;
+                }
+                nodes.push(n);
+            }
+            "edge" => {
+                let src = scn.names.rows.get(&s(it, "src")).cloned().ok_or("unknown src")?;
+                let dest = scn.names.rows.get(&s(it, "dst")).cloned().ok_or("unknown dst")?;
+                let mut e = Edge { src, src_entity: short_of(&s(it, "ent")), label: find_field_short(&dm, "ra").unwrap_or_default(), dest, cdate: date,
+                    verifying_key: vec![], signature: vec![] };
+                e.sign(&key).map_err(|e| e.to_string())?;
+                if tamper == "sig" {
+                    flip(&mut e.signature);
+                }
+                if tamper == "field" {
+                    e.cdate += 1;
+                }
+                edges.push(e);
+            }
+            "ntomb" => {
+                let id = scn.names.rows.get(&s(it, "row")).cloned().ok_or("unknown row")?;
+                let room = scn.names.rooms.get(&s(it, "stated")).cloned().ok_or("unknown stated room")?;
+                let existing = st.nodes.iter().find(|n| n.id == id);
+                let n = Node { id, room_id: Some(room), cdate: 0, mdate: existing.map(|e| e.mdate).unwrap_or(date), _entity: short_of(&s(it, "ent")),
+                    _json: None, _binary: None, verifying_key: vec![], _signature: vec![], _local_id: None };
+                let mut t = NodeDeletionEntry::build(room, &n, date, &key);
+                if tamper == "sig" {
+                    flip(&mut t.signature);
+                }
+                if tamper == "field" {
+                    t.deletion_date += 1;
+                }
+                ntombs.push(t);
+            }
+            "etomb" => {
+                let src = scn.names.rows.get(&s(it, "src")).cloned().ok_or("unknown src")?;
+                let dest = scn.names.rows.get(&s(it, "dst")).cloned().ok_or("unknown dst")?;
+                let room = scn.names.rooms.get(&s(it, "stated")).cloned().ok_or("unknown stated room")?;
+                let existing = st.edges.iter().find(|e| e.src == src && e.dest == dest);
+                let e = Edge { src, src_entity: short_of(&s(it, "ent")), label: existing.map(|e| e.label.clone()).unwrap_or(find_field_short(&dm, "ra").unwrap_or_default()),
+                    dest, cdate: existing.map(|e| e.cdate).unwrap_or(date), verifying_key: vec![], signature: vec![] };
+                let mut t = EdgeDeletionEntry::build(room, &e, date, &key);
+                if tamper == "sig" {
+                    flip(&mut t.signature);
+                }
+                etombs.push(t);
+            }
+            other => return Err(format!("unknown item kind {other}")),
+        }
+    }
+    let sv = &dst.services.signature_verification;
+    let mut out = Map::new();
+    if !etombs.is_empty() {
+        match sv.verify_edge_log(etombs).await {
+            Ok(v) => {
+                dst.db.delete_edges(v).await.map_err(|e| e.to_string())?;
+                out.insert("etombs".to_string(), json!("ingested"));
+            }
+            Err(e) => {
+                out.insert("etombs".to_string(), json!(format!("sig: {e}").chars().take(40).collect::<String>()));
+            }
+        }
+    }
+    if !ntombs.is_empty() {
+        match sv.verify_node_log(ntombs).await {
+            Ok(v) => {
+                dst.db.delete_nodes(v).await.map_err(|e| e.to_string())?;
+                out.insert("ntombs".to_string(), json!("ingested"));
+            }
+            Err(e) => {
+                out.insert("ntombs".to_string(), json!(format!("sig: {e}").chars().take(40).collect::<String>()));
+            }
+        }
+    }
+    if !nodes.is_empty() {
+        let mut set = HashSet::new();
+        for n in &nodes {
+            set.insert(NodeIdentifier { id: n.id, mdate: n.mdate, signature: n._signature.clone() });
+        }
+        let filtered = dst.db.filter_existing_node(sync_room, set).await.map_err(|e| e.to_string())?;
+        let mut wanted: HashMap<Uid, vh::database::node::NodeToInsert> = filtered.into_iter().map(|f| (f.id, f)).collect();
+        nodes.retain(|n| wanted.contains_key(&n.id));
+        match sv.verify_nodes(nodes).await {
+            Ok(nodes) => {
+                let mut ntis = Vec::new();
+                for mut n in nodes {
+                    if let Some(mut nti) = wanted.remove(&n.id) {
+                        n._local_id = nti.old_local_id;
+                        nti.node = Some(n);
+                        ntis.push(nti);
+                    }
+                }
+                let rej = dst.db.add_nodes(sync_room, ntis).await.map_err(|e| e.to_string())?;
+                out.insert("nodes".to_string(), json!(rej.iter().map(|r| scn.names.row(r)).collect::<Vec<_>>()));
+            }
+            Err(e) => {
+                out.insert("nodes".to_string(), json!(format!("sig: {e}").chars().take(40).collect::<String>()));
+            }
+        }
+    }
+    if !edges.is_empty() {
+        match sv.verify_edges(edges).await {
+            Ok(edges) => {
+                let rej = dst.db.add_edges(sync_room, edges).await.map_err(|e| e.to_string())?;
+                out.insert("edges".to_string(), json!(rej.iter().map(|r| scn.names.row(r)).collect::<Vec<_>>()));
+            }
+            Err(e) => {
+                out.insert("edges".to_string(), json!(format!("sig: {e}").chars().take(40).collect::<String>()));
+            }
+        }
+    }
+    dst.recompute().await;
+    Ok(Value::Object(out))
+}
+
+fn find_field_short(v: &Value, field: &str) -> Option<String> {
+    // generic walk: an object with "name": field and a "short_name"
+    match v {
+        Value::Object(m) => {
+            if m.get("name").and_then(|n| n.as_str()) == Some(field) && !m.contains_key("fields") {
+                if let Some(s) = m.get("short_name").and_then(|n| n.as_str()) {
+                    return Some(s.to_string());
+                }
+            }
+            for (_, x) in m {
+                if let Some(r) = find_field_short(x, field) {
+                    return Some(r);
+                }
+            }
+            None
+        }
+        Value::Array(a) => a.iter().find_map(|x| find_field_short(x, field)),
+        _ => None,
+    }
 }
 
 fn err_class(e: &str) -> String {
@@ -627,6 +928,28 @@ pub async fn run_step(world: &mut World, scn: &mut Scn, step: &Value, out: &mut 
                 scn.names.add_row(&row, id);
             }
         }
+        "offer" => {
+            // everything instance `from` stores for the room is offered to instance `to` through the ingestion
+            // entry points the synchronisation uses (signature verification included), whatever the logs say
+            match offer(world, scn, &s(step, "from"), &s(step, "to"), &s(step, "room")).await {
+                Ok(v) => {
+                    ev["rejected_nodes"] = v["rejected_nodes"].clone();
+                    ev["rejected_edges"] = v["rejected_edges"].clone();
+                    ev["sigfail"] = v["sigfail"].clone();
+                }
+                Err(e) => res = Err(e),
+            }
+        }
+        "inject" => {
+            // rows built and signed by the harness (it holds every user's key) go through the ingestion entry
+            // points of the synchronisation of room `room` on instance `to`
+            match inject(world, scn, step).await {
+                Ok(v) => {
+                    ev["outcome"] = v;
+                }
+                Err(e) => res = Err(e),
+            }
+        }
         "compute" => {
             world.peers[&s(step, "p")].recompute().await;
         }
@@ -750,7 +1073,7 @@ pub async fn run_step(world: &mut World, scn: &mut Scn, step: &Value, out: &mut 
     if dbg { eprintln!("defs"); }
     if scn.defs {
         // definitions can only change through room mutations and pulls
-        if scn.defs_cache.is_none() || matches!(op.as_str(), "roomdef" | "roomupd" | "pull" | "quiesce" | "room") {
+        if scn.defs_cache.is_none() || matches!(op.as_str(), "roomdef" | "roomupd" | "pull" | "quiesce" | "room" | "offer") {
             let mut m = Map::new();
             for p in scn.peers.clone() {
                 m.insert(p.clone(), project_defs(world, scn, &p).await);
